@@ -87,6 +87,9 @@ def judge_call(opname, out, recs, truth=None):
         return None
     # replies to bytes that did not decode as a command are C08/C15's business
     recs = [r for r in recs if r.verb != b"<malformed>"]
+    # a LOGOUT some clients send on their way out of a failed operation is a courtesy, whatever it is answered with
+    if len(recs) > 1:
+        recs = [r for r in recs if r.verb != b"LOGOUT"] or recs
     if not recs:
         return None    # nothing was said by the server (client-side refusal): outside the mapping
     statuses = [r.status for r in recs]
@@ -109,6 +112,13 @@ def judge_call(opname, out, recs, truth=None):
                 opname, last.raw, out), {"op": opname, "reply": last.raw})
         if nonreply:
             return None
+        # a call may have been told NO more than once (the refusal proper, then a tidy-up command refused as well): which
+        # of them the client reports is its choice, as long as code and text are those of one and the same refusal
+        others = [r for r in recs if r.status == b"NO" and r is not last and r.verb not in (b"<greeting>", b"<post-tls-caps>")]
+        for r in others:
+            f2 = code_forms(r.reply.code)
+            if ((f2 is None and not norm(out.errcode)) or (f2 is not None and norm(out.errcode) in f2)) and norm(r.reply.text) == norm(out.errmsg):
+                return None
         rep = last.reply
         forms = code_forms(rep.code)
         got = norm(out.errcode)
